@@ -288,7 +288,15 @@ impl Request {
         }
 
         let content_length = match self.headers.get_raw(RequestHeader::ContentLength) {
-            Some(v) => unsafe {v.as_bytes()}.into_iter().fold(0, |len, b| 10*len + (*b - b'0') as usize),
+            Some(v) => {
+                let digits = unsafe {v.as_bytes()};
+                if digits.is_empty() || !digits.iter().all(u8::is_ascii_digit) {
+                    return Err(Response::BadRequest())
+                }
+                digits.iter()
+                    .try_fold(0usize, |len, d| len.checked_mul(10)?.checked_add((*d - b'0') as usize))
+                    .ok_or_else(Response::PayloadTooLarge)?
+            }
             None    => 0,
         };
         match content_length {
